@@ -1773,6 +1773,8 @@ where
     let mut voted = false;
 
     let mut remote_reason = DisconnectionReason::AgentStoppedExternally;
+    // A failure of the store stops the task; the links are still closed before the error is reported.
+    let mut store_failure: Option<StoreError> = None;
 
     loop {
         let next = streams.select_next().await;
@@ -1825,7 +1827,8 @@ where
                     let AgentItemInitError { name, source } = error;
                     error!(error = %source, "Initializing a store for {} failed.", name);
                     if let StoreInitError::Store(err) = source {
-                        return Err(err);
+                        store_failure = Some(err);
+                        break;
                     }
                 }
                 TaskMessageResult::Nothing => {}
@@ -1844,7 +1847,10 @@ where
                     streams.enable_timeout();
                     voted = false;
                 }
-                persist_response(&mut store, &response)?;
+                if let Err(err) = persist_response(&mut store, &response) {
+                    store_failure = Some(err);
+                    break;
+                }
                 if let Some((item_id, response)) = response.into_uplink_response() {
                     for write in state.handle_event(item_id, response) {
                         streams.schedule_write(write.into_future());
@@ -1935,7 +1941,10 @@ where
             runtime_config.shutdown_timeout
         );
     }
-    Ok(())
+    match store_failure {
+        Some(err) => Err(err),
+        None => Ok(()),
+    }
 }
 
 async fn await_io_tasks<F1, F2>(
